@@ -33,11 +33,15 @@ KeysABC == <<kA, kB, kC>>
 Cls9 == {"a", "QUOTE", "BSL", "LF", "TAB", "C01", "EACU", "EMOJI", "BADFF"}
 \* ... and the boundaries of writeString / readEscaped / the JSON string grammar
 Cls16 == Cls9 \cup {"C1F", "SP", "DEL", "U80", "UFFFD", "/", "u"}
+\* invisible characters (C1 control, format characters in and above the BMP, line / paragraph separator, BOM)
+Invisible == {"U85", "UAD", "U200B", "U2028", "U2029", "U202E", "UFEFF", "U1D173", "UE0067"}
 
 Seqs(S, n) == [1..n -> S]
 StrsUpTo(S, n) == UNION {Seqs(S, m) : m \in 0..n}
 
-Syms == {<<"A">>, <<"R", "E", "D">>, <<"a", "_", "1">>, <<"_", "x">>}
+\* (only the lower case words true, false and null are literals: their case variants are ordinary enum symbols)
+Syms == {<<"A">>, <<"R", "E", "D">>, <<"a", "_", "1">>, <<"_", "x">>, <<"N", "U", "L", "L">>, <<"T", "r", "u", "e">>, <<"F", "A", "L", "S", "E">>,
+         <<"N", "u", "l", "l">>, <<"t", "r", "u", "e", "r">>, <<"n", "u", "l", "l", "_">>}
 Vars == {<<"v">>, <<"x", "1">>, <<"_", "a">>}
 
 LeafAll == {NullV, BoolV(TRUE), BoolV(FALSE)}
@@ -93,6 +97,9 @@ FamVals(f) ==
     [] f = "triple" -> {ListV(<<x, y, z>>) : x, y, z \in Adj4} \cup {ObjV(<<Ent(kA, x), Ent(kB, y), Ent(kC, z)>>) : x, y, z \in Adj4}
     [] f = "str2" -> UNION {Wrap(StrV(s)) : s \in Seqs(Cls16, 2)}
     [] f = "str3" -> {StrV(s) : s \in Seqs(Cls9, 3)}
+    [] f = "strinv" -> UNION {Wrap(StrV(s)) : s \in {<<c>> : c \in Invisible} \cup {<<"a", c>> : c \in Invisible} \cup {<<c, "QUOTE">> : c \in Invisible}
+                                                    \cup {<<c, d>> : c \in Invisible, d \in {"U2028", "UE0067", "BSL"}}}
+                         \cup {ObjV(<<Ent(<<c>>, one)>>) : c \in Invisible}
     [] f = "str3wide" -> {StrV(s) : s \in Seqs(Cls16, 3)} \cup {ObjV(<<Ent(kA, StrV(s))>>) : s \in Seqs(Cls9, 3)}
     [] f = "key" -> {ObjV(<<Ent(k, one)>>) : k \in AllKeys}
                     \cup {Canon(ObjV(<<Ent(k, ListV(<<>>)), Ent(kB, one)>>)) : k \in AllKeys \ {kB}}
